@@ -46,8 +46,54 @@ def _locals_of(fnode):
     return names
 
 
+def helper_closure(func, max_depth=3):
+    """Repository functions reachable from func through calls `self.h(...)` / `h(...)` that resolve in the model (the function
+    itself first): a template that is not found in the anchored function is looked for in the helpers it delegates to."""
+    from . import flow
+
+    model = flow.MODEL
+    out, seen = [func], {id(func.node)}
+    if model is None:
+        return out
+    frontier = [(func, 0)]
+    while frontier:
+        f, d = frontier.pop(0)
+        if d >= max_depth:
+            continue
+        for c in ast.walk(f.node):
+            if isinstance(c, ast.Call):
+                try:
+                    g = model.resolve_call(c, f)
+                except Exception:
+                    g = None
+                if g is not None and hasattr(g, "node") and isinstance(g.node, ast.FunctionDef) and id(g.node) not in seen and g.module is f.module:
+                    seen.add(id(g.node))
+                    out.append(g)
+                    frontier.append((g, d + 1))
+    return out
+
+
+def has_in_helpers(func, template, lets=()):
+    """(node, AM, function) of the first match of the statement / expression template in func or in a helper of the same module that
+    func (transitively) calls; inside helpers the helper's own parameters may stand for the template's placeholders."""
+    for i, g in enumerate(helper_closure(func)):
+        am = AM(g, params_bindable=(i > 0))
+        for name, tpl in lets:
+            am.let(name, tpl)
+        n = am.has(g.node, template)
+        if n is not None:
+            take_last_miss()
+            return n, am, g
+    return None, None, None
+
+
+def take_last_miss():
+    if MISS_LOG:
+        MISS_LOG.pop()
+
+
 class AM:
-    def __init__(self, func, extra_fixed=()):
+    def __init__(self, func, extra_fixed=(), params_bindable=False):
         self.func = func
         a = func.node.args
         self.params = {x.arg for x in a.posonlyargs + a.args + a.kwonlyargs}
@@ -56,6 +102,10 @@ class AM:
         if a.kwarg:
             self.params.add(a.kwarg.arg)
         self.locals = _locals_of(func.node) - self.params
+        if params_bindable:
+            # a helper's parameters are locals of the computation that was moved into it
+            self.locals |= {p_ for p_ in self.params if p_ not in ("self", "cls")}
+            self.params = {p_ for p_ in self.params if p_ in ("self", "cls")}
         mod = func.module
         self.fixed = set(self.params) | {"self", "cls"} | set(dir(builtins)) | set(mod.imports) | set(mod.funcs) | set(mod.classes) | set(mod.assigns) | set(extra_fixed)
         for s in mod.star:
